@@ -22,6 +22,24 @@ let int_of_z = function Z0 -> 0 | Zpos p -> int_of_pos p | Zneg p -> - (int_of_p
 
 let rec nat_of_int n = if n = 0 then O else S (nat_of_int (n - 1))
 
+(* hexadecimal numeral of any length (usize arguments exceed OCaml's 63-bit int) *)
+let z_of_hex s =
+  let bits = ref [] in
+  String.iter
+    (fun c ->
+      let v = int_of_string ("0x" ^ String.make 1 c) in
+      bits := (v land 1 = 1) :: (v land 2 = 2) :: (v land 4 = 4) :: (v land 8 = 8) :: !bits)
+    s;
+  (* !bits is least significant first *)
+  let rec build = function
+    | [] -> None
+    | b :: r -> (
+      match build r with
+      | None -> if b then Some XH else None
+      | Some q -> Some (if b then XI q else XO q))
+  in
+  match build !bits with None -> Z0 | Some q -> Zpos q
+
 let f_of_hex s = of_bits (z_of_int (int_of_string ("0x" ^ s)))
 
 (* canonical print: NaN -> nan, both zeros -> 00000000 *)
@@ -36,6 +54,8 @@ let b2i b = if b then 1 else 0
 
 type obj =
   | NoObj
+  | OPrim
+  | OPa of z * z * pa
   | OAdsr of adsr
   | OLfo of lfo
   | OQuant of quant
@@ -82,6 +102,14 @@ let notes arg =
   | Some "-" -> []
   | Some a -> List.map (fun x -> z_of_int (int_of_string x)) (String.split_on_char ',' a)
 
+let pa_line tot idx x =
+  Printf.sprintf "%d %s %d %s" (int_of_z x.pa_acc) (p (pa_ramp tot x)) (int_of_z (pa_index tot idx x))
+    (p (pa_fraction tot idx x))
+
+let supported_pas = [ (24, 10); (24, 8); (16, 4); (10, 10); (30, 12); (8, 1); (12, 12); (20, 10) ]
+
+let table = function "sine" -> sine_table | "attack" -> attack_table | _ -> decay_table
+
 let supported_caps =
   [ 1; 2; 3; 4; 5; 6; 7; 8; 9; 10; 12; 16; 18; 20; 24; 32; 35; 52; 69; 86; 171; 341; 750; 817; 1633; 3265 ]
 
@@ -114,6 +142,14 @@ let exec obj line =
       let r = ribbon_new (nat_of_int cap) fs (f_of_hex (a 2)) (f_of_hex (a 3)) (f_of_hex (a 4)) in
       (ORibbon r, ribbon_line r)
     end
+  | "prim.new" -> (OPrim, "prim")
+  | "pa.new" ->
+    let t = int_of_string (a 0) and i = int_of_string (a 1) in
+    if not (List.mem (t, i) supported_pas) then (obj, "UNSUPPORTED-PA")
+    else begin
+      let x = pa_new (f_of_hex (a 2)) in
+      (OPa (z_of_int t, z_of_int i, x), pa_line (z_of_int t) (z_of_int i) x)
+    end
   | "ribbon.cap" ->
     let fs = z_of_int (int_of_string (a 0)) in
     guard (sample_rate_to_capacity_ok fs);
@@ -121,6 +157,44 @@ let exec obj line =
   | _ -> (
     match obj with
     | NoObj -> (obj, "NOOBJ")
+    | OPrim -> (
+      match op with
+      | "interp" -> (obj, p (linear_interp (f_of_hex (a 0)) (f_of_hex (a 1)) (f_of_hex (a 2))))
+      | "ilog2" -> (obj, string_of_int (int_of_z (ilog_2 (z_of_hex (a 0)))))
+      | "almost" -> (obj, string_of_int (b2i (is_almost (f_of_hex (a 0)) (f_of_hex (a 1)) (f_of_hex (a 2)))))
+      | "fabs" -> (obj, p (fabs (f_of_hex (a 0))))
+      | "tab" -> (
+        (* array indexing: out of bounds panics in every build *)
+        match List.nth_opt (table (a 0)) (int_of_string (a 1)) with
+        | None -> raise Panic
+        | Some x -> (obj, p x))
+      | "tabhash" ->
+        let t = table (a 0) in
+        let h = ref 0xcbf29ce484222325L in
+        List.iter
+          (fun x ->
+            String.iter
+              (fun c ->
+                h := Int64.logxor !h (Int64.of_int (Char.code c));
+                h := Int64.mul !h 0x100000001b3L)
+              (p x))
+          t;
+        (obj, Printf.sprintf "n=%d h=%016Lx" (List.length t) !h)
+      | _ -> (obj, "BADOP " ^ op))
+    | OPa (tot, idx, x) -> (
+      let ret x' = (OPa (tot, idx, x'), pa_line tot idx x') in
+      match op with
+      | "tick" ->
+        guard (pa_tick_ok x);
+        ret (pa_tick tot x)
+      | "freq" -> ret (pa_set_frequency tot x (f_of_hex (a 0)))
+      | "period" -> ret (pa_set_period tot x (f_of_hex (a 0)))
+      | "phase" -> ret (pa_set_phase tot x (f_of_hex (a 0)))
+      | "reset" -> ret (pa_reset x)
+      | "roll" ->
+        let r, x' = pa_take_rolled x in
+        (OPa (tot, idx, x'), Printf.sprintf "%s r=%d" (pa_line tot idx x') (b2i r))
+      | _ -> (obj, "BADOP " ^ op))
     | OAdsr s -> (
       let o =
         match op with
